@@ -9,18 +9,26 @@
      - a same-tweak collision: one of F, H, T_l called with the same PK.seed
        and the same ADRS on two DIFFERENT inputs of EQUAL (positive) length
        with equal outputs (`th_collision`), or
-     - a WOTS+ message switch: two WOTS+ signatures on DIFFERENT messages that
-       verify to the same WOTS+ public key at the same address
-       (`wots_switch`; a one-time-signature forgery: for at least one chain one
-       signature value is a forward chain image of the other, so one of them
-       needed a chain preimage).
+     - a LOCATED WOTS+ switch (`sig_switch ... = true`, a boolean computed from
+       the two signatures): at some hypertree layer the two verifications
+       recompute the SAME WOTS+ public key from their WOTS+ parts although the
+       base-w digit strings (message digits and checksum) of the values they
+       sign there DIFFER.  Then (switch_at_walk) some chain value of one
+       signature is a STRICT forward chain image of the other's, and, by the
+       checksum, also the other way round at another chain (or a collision):
+       whoever derived one signature from the other needed a chain preimage.
+       The event is about the two given signatures; an unlocated "there exist
+       two WOTS+ signatures on different messages with the same public key"
+       would hold for every hash family (unlocated_switch_is_free: the holder
+       of the secret values can always make them).
    The proofs are constructive (closed under the global context): they are
    the reduction that extracts the collision / switch from the two signatures.
-   What is NOT claimed: a modification that changes R or the message changes
-   the digest, and a different digest selects other FORS leaves / another
-   hypertree leaf; rejection then rests on the (interleaved) target-subset
-   resilience of H_msg and the secrecy of the PRF outputs, which no collision
-   law expresses. *)
+   What is NOT claimed here: a modification that changes R or the message changes
+   the digest.  When the new digest keeps (idx_tree, idx_leaf) and changes only the
+   FORS indices, proofs/SlhdsaTargetSubset.v reduces acceptance to the explicit
+   target-subset event (crossing openings in every FORS tree); when it selects
+   another hypertree leaf nothing is proved (target-subset resilience of H_msg and
+   PRF secrecy are not hash laws of this development). *)
 From Coq Require Import List NArith Bool Arith Lia ZifyN ZifyNat ZifyBool.
 From Tink Require Import Bytes SlhdsaSupport SlhdsaAddr SlhdsaBase SlhdsaWots SlhdsaXmss SlhdsaFors SlhdsaHt Slhdsa
   SlhdsaSpec SlhdsaListProofs SlhdsaSupportProofs SlhdsaWotsProofs SlhdsaXmssProofs SlhdsaForsProofs SlhdsaHtProofs
@@ -32,9 +40,16 @@ Definition th_collision (HS : hashes) (pk : bytes) : Prop :=
   exists ad x y, x <> y /\ length x = length y /\ 0 < length x /\
     (hF HS pk ad x = hF HS pk ad y \/ hH HS pk ad x = hH HS pk ad y \/ hTl HS pk ad x = hTl HS pk ad y).
 
-Definition wots_switch (P : params) (HS : hashes) (pk : bytes) : Prop :=
-  exists l t kp M M' s s', M <> M' /\ length s = p_len P * p_n P /\ length s' = p_len P * p_n P /\
-    wotsPkFromSigS P HS l t kp (wotsChecksum P M) s pk = wotsPkFromSigS P HS l t kp (wotsChecksum P M') s' pk.
+(* hash outputs are byte strings (needed to go from equal digit strings to equal messages) *)
+Record hashes_wfb (HS : hashes) : Prop := {
+  hH_wfb : forall pk ad x, wfb (hH HS pk ad x);
+  hTl_wfb : forall pk ad x, wfb (hTl HS pk ad x)
+}.
+
+(* the len1 message digits cover exactly the 8n bits of an n-byte message (lg_w divides 8n;
+   lg_w = 4 in all twelve sets), so base_2b is injective on n-byte strings *)
+Definition digits_wf (P : params) : Prop :=
+  p_len1 P * p_lgw P = 8 * p_n P /\ 1 <= p_lgw P <= 25 /\ p_len2 P * p_lgw P <= 32.
 
 Definition bytes_eq_dec : forall x y : bytes, {x = y} + {x <> y} := list_eq_dec N.eq_dec.
 
@@ -102,6 +117,127 @@ Proof.
   destruct (Nat.eq_dec i s) as [->|Hne]; [exact E1|].
   apply (IH (S s)); auto; try lia; intros; [apply Hf|apply Hg]; lia.
 Qed.
+
+(* ---------- base_2b is injective when it reads all the bits ---------- *)
+Lemma le_val_inj : forall a b, wfb a -> wfb b -> length a = length b -> le_val a = le_val b -> a = b.
+Proof.
+  induction a as [|x a IH]; intros b Wa Wb L E; destruct b as [|y b]; simpl in L; try lia; [reflexivity|].
+  inversion Wa; subst. inversion Wb; subst. cbn [le_val] in E.
+  assert (x = y /\ le_val a = le_val b) as [-> E2] by lia.
+  f_equal. apply IH; auto.
+Qed.
+
+Lemma be_val_inj a b : wfb a -> wfb b -> length a = length b -> be_val a = be_val b -> a = b.
+Proof.
+  intros Wa Wb L E. unfold be_val in E.
+  apply le_val_inj in E; try (apply Forall_rev; assumption); [|rewrite !rev_length; exact L].
+  rewrite <- (rev_involutive a), <- (rev_involutive b), E. reflexivity.
+Qed.
+
+Lemma base2b_inj x y b out : wfb x -> wfb y -> length x = length y -> out * b = 8 * length x -> b <= 25 ->
+  base2b x b out = base2b y b out -> x = y.
+Proof.
+  intros Wx Wy L Hb H25 E.
+  destruct (base2b_value x b out Wx H25 ltac:(lia)) as [Vx _].
+  destruct (base2b_value y b out Wy H25 ltac:(lia)) as [Vy _].
+  rewrite E in Vx. rewrite Vx in Vy.
+  replace (8 * length x - out * b) with 0 in Vy by lia. replace (8 * length y - out * b) with 0 in Vy by lia.
+  change (2 ^ N.of_nat 0)%N with 1%N in Vy. rewrite !N.div_1_r in Vy. apply be_val_inj; auto.
+Qed.
+
+Lemma list_diff_nth : forall (a b : list N), length a = length b -> a <> b -> exists i, i < length a /\ nth i a 0%N <> nth i b 0%N.
+Proof.
+  induction a as [|x a IH]; intros b L Hne; destruct b as [|y b]; simpl in L; try lia; [contradiction|].
+  destruct (N.eq_dec x y) as [->|Hxy].
+  - destruct (IH b ltac:(lia) ltac:(intros ->; apply Hne; reflexivity)) as (i & Hi & Hd).
+    exists (S i). split; [simpl; lia|exact Hd].
+  - exists 0. split; [simpl; lia|exact Hxy].
+Qed.
+
+(* ---------- the WOTS+ checksum: digit strings are an antichain ----------
+   two different digit strings (message digits ++ checksum digits) of the same
+   length: some digit of the first is smaller AND some digit of the first is larger *)
+Section ANTICHAIN.
+  Variable P : params.
+  Hypothesis DW : digits_wf P.
+
+  Lemma nth_le_Forall2 : forall (l l' : list N), length l = length l' ->
+    (forall i, i < length l -> (nth i l' 0 <= nth i l 0)%N) -> Forall2 N.le l' l.
+  Proof.
+    induction l as [|x l IH]; intros l' L H; destruct l' as [|y l']; simpl in L; try lia; [constructor|].
+    constructor; [exact (H 0 ltac:(simpl; lia))|].
+    apply IH; [lia|]. intros i Hi. exact (H (S i) ltac:(simpl; lia)).
+  Qed.
+
+  Lemma digits_val_mono b : forall l' l, Forall2 N.le l' l -> forall acc' acc, (acc' <= acc)%N ->
+    (fold_left (fun a d => a * pw b + d) l' acc' <= fold_left (fun a d => a * pw b + d) l acc)%N.
+  Proof.
+    induction 1 as [|x' x l' l Hx _ IH]; intros acc' acc Ha; cbn [fold_left]; [exact Ha|].
+    apply IH. pose proof (pw_pos b). nia.
+  Qed.
+
+  Lemma csum_strict (W : N) : forall l' l, Forall2 N.le l' l -> Forall (fun d => d <= W - 1)%N l ->
+    forall acc acc', (acc <= acc')%N ->
+    (fold_left (fun c d => c + (W - 1 - d)) l acc <= fold_left (fun c d => c + (W - 1 - d)) l' acc')%N /\
+    ((fold_left (fun c d => c + (W - 1 - d)) l' acc' <= fold_left (fun c d => c + (W - 1 - d)) l acc)%N ->
+     acc = acc' /\ l = l').
+  Proof.
+    induction 1 as [|x' x l' l Hx _ IH]; intros Hl acc acc' Ha; cbn [fold_left].
+    - split; [exact Ha|]. intros; split; [lia|reflexivity].
+    - inversion Hl as [|? ? Hxw Hl2]; subst.
+      destruct (IH Hl2 (acc + (W - 1 - x))%N (acc' + (W - 1 - x'))%N ltac:(lia)) as [I1 I2].
+      split; [exact I1|]. intros Hle. destruct (I2 Hle) as [Ea El].
+      assert (acc = acc' /\ x = x') as [-> ->] by lia. subst l'. auto.
+  Qed.
+
+  (* if no digit of d = digits(M) is below the digit of d' = digits(M') then d = d' *)
+  Lemma checksum_no_dominance M M' :
+    (forall i, i < p_len P -> (nth i (wotsChecksum P M') 0 <= nth i (wotsChecksum P M) 0)%N) ->
+    wotsChecksum P M = wotsChecksum P M'.
+  Proof.
+    intros Hdom. destruct DW as (D1 & D2 & D3).
+    destruct (wotsChecksum_value P D2 D3 M) as (cs & E & Lc & Fc & Vc).
+    destruct (wotsChecksum_value P D2 D3 M') as (cs' & E' & Lc' & Fc' & Vc').
+    set (mb := base2b M (p_lgw P) (p_len1 P)) in *. set (mb' := base2b M' (p_lgw P) (p_len1 P)) in *.
+    assert (Lm : length mb = p_len1 P) by apply base2b_length.
+    assert (Lm' : length mb' = p_len1 P) by apply base2b_length.
+    assert (Hmb : Forall2 N.le mb' mb).
+    { apply nth_le_Forall2; [lia|]. intros i Hi. specialize (Hdom i ltac:(unfold p_len; lia)).
+      rewrite E, E', !app_nth1 in Hdom by lia. exact Hdom. }
+    assert (Hcs : Forall2 N.le cs' cs).
+    { apply nth_le_Forall2; [lia|]. intros i Hi. specialize (Hdom (p_len1 P + i) ltac:(unfold p_len; lia)).
+      rewrite E, E', !app_nth2 in Hdom by lia. rewrite Lm, Lm' in Hdom.
+      replace (p_len1 P + i - p_len1 P) with i in Hdom by lia. exact Hdom. }
+    assert (Hw : Forall (fun d => d <= N.of_nat (p_w P) - 1)%N mb).
+    { pose proof (base2b_lt M (p_lgw P) (p_len1 P)) as Hl. fold mb in Hl. rewrite p_w_N.
+      eapply Forall_impl; [|exact Hl]. cbv beta. intros; lia. }
+    pose proof (digits_val_mono (p_lgw P) cs' cs Hcs 0%N 0%N ltac:(lia)) as Hv.
+    fold (digits_val (p_lgw P) cs') in Hv. fold (digits_val (p_lgw P) cs) in Hv. rewrite Vc, Vc' in Hv.
+    unfold csum_spec in Hv.
+    destruct (csum_strict (N.of_nat (p_w P)) mb' mb Hmb Hw 0%N 0%N ltac:(lia)) as [_ I2].
+    destruct (I2 Hv) as [_ Em].
+    (* equal message digits: the checksum digits are a function of them *)
+    unfold wotsChecksum. fold mb mb'. rewrite Em. reflexivity.
+  Qed.
+
+  Lemma N_le_dec (a b : N) : {(a <= b)%N} + {~ (a <= b)%N}.
+  Proof. destruct (N.leb a b) eqn:E; [left; apply N.leb_le; exact E|right; intros H; apply N.leb_le in H; congruence]. Qed.
+
+  Theorem checksum_antichain M M' : wotsChecksum P M <> wotsChecksum P M' ->
+    (exists i, i < p_len P /\ (nth i (wotsChecksum P M) 0 < nth i (wotsChecksum P M') 0)%N) /\
+    (exists i, i < p_len P /\ (nth i (wotsChecksum P M') 0 < nth i (wotsChecksum P M) 0)%N).
+  Proof.
+    intros Hne. split.
+    - destruct (bounded_dec (fun i => (nth i (wotsChecksum P M') 0 <= nth i (wotsChecksum P M) 0)%N)
+                  (fun i => N_le_dec _ _) (p_len P)) as [All|(i & Hi & Hn)].
+      + exfalso. apply Hne. apply checksum_no_dominance. exact All.
+      + exists i. split; [exact Hi|lia].
+    - destruct (bounded_dec (fun i => (nth i (wotsChecksum P M) 0 <= nth i (wotsChecksum P M') 0)%N)
+                  (fun i => N_le_dec _ _) (p_len P)) as [All|(i & Hi & Hn)].
+      + exfalso. apply Hne. symmetry. apply checksum_no_dominance. exact All.
+      + exists i. split; [exact Hi|lia].
+  Qed.
+End ANTICHAIN.
 
 Section FORGERY.
   Variable P : params.
@@ -227,17 +363,6 @@ Section FORGERY.
     exact (G (p_len P) (le_n _)).
   Qed.
 
-  Corollary wots_switch_walk l t kp M M' s s' :
-    length s = p_len P * n -> length s' = p_len P * n ->
-    wotsPkFromSigS P HS l t kp (wotsChecksum P M) s pk = wotsPkFromSigS P HS l t kp (wotsChecksum P M') s' pk ->
-    COLL \/ forall i, i < p_len P ->
-      let m := nth i (wotsChecksum P M) 0%N in let m' := nth i (wotsChecksum P M') 0%N in
-      ((m <= m')%N -> chunk P i s' = chainS HS l t kp (N.of_nat i) pk (chunk P i s) m (N.to_nat (m' - m))) /\
-      ((m' <= m)%N -> chunk P i s = chainS HS l t kp (N.of_nat i) pk (chunk P i s') m' (N.to_nat (m - m'))).
-  Proof.
-    intros Hs Hs' E. apply wots_switch_chains; auto; intros; apply wotsChecksum_digit.
-  Qed.
-
   (* ---------- the climb of Algorithms 11 and 17 ---------- *)
   Lemma climbS_length mkad : forall cnt k tidx idx auth node, length node = n ->
     length (climbS P HS mkad cnt k tidx idx auth pk node) = n.
@@ -269,14 +394,45 @@ Section FORGERY.
       split; [exact X1|]. intros j Hj. destruct (Nat.eq_dec j k) as [->|Hne]; [exact X2|apply Rest; lia].
   Qed.
 
+  Lemma climbS_wfb (WB : hashes_wfb HS) mkad : forall cnt k tidx idx auth node, wfb node ->
+    wfb (climbS P HS mkad cnt k tidx idx auth pk node).
+  Proof.
+    induction cnt as [|cnt IH]; intros; [assumption|]. cbn [climbS]. apply IH.
+    destruct (N.eqb _ 0); apply (hH_wfb _ WB).
+  Qed.
+
   (* ---------- one XMSS layer ---------- *)
   Notation sz := (xmssSigSize P).
+  Hypothesis WB : hashes_wfb HS.
+  Hypothesis DW : digits_wf P.
+
+  Lemma xmss_out_len l t idx X M : length (xmssPkFromSigS P HS l t idx X M pk) = n.
+  Proof. unfold xmssPkFromSigS. apply climbS_length. apply (hTl_len _ _ OK). Qed.
+  Lemma xmss_out_wfb l t idx X M : wfb (xmssPkFromSigS P HS l t idx X M pk).
+  Proof. unfold xmssPkFromSigS. apply climbS_wfb; [exact WB|]. apply (hTl_wfb _ WB). Qed.
+
+  (* equal digit strings (message digits and checksum) of two n-byte strings: equal strings *)
+  Lemma digits_inj M M' : wfb M -> wfb M' -> length M = n -> length M' = n ->
+    wotsChecksum P M = wotsChecksum P M' -> M = M'.
+  Proof.
+    intros W W' L L' E. destruct DW as (D1 & D2 & _). unfold wotsChecksum in E. cbv zeta in E.
+    apply app_inv_length in E; [|rewrite !base2b_length; reflexivity].
+    destruct E as [E _]. apply (base2b_inj M M' (p_lgw P) (p_len1 P)); auto; lia.
+  Qed.
+
+  (* THE LOCATED EVENT at one layer: the WOTS+ parts of X and X' lead to the same WOTS+ public
+     key at address (l, t, kp) although the digit strings of the signed values M, M' differ *)
+  Definition switch_at (l t kp : N) (M M' X X' : bytes) : bool :=
+    negb (beq (wotsChecksum P M) (wotsChecksum P M')) &&
+    beq (wotsPkFromSigS P HS l t kp (wotsChecksum P M) (firstn (p_len P * n) X) pk)
+        (wotsPkFromSigS P HS l t kp (wotsChecksum P M') (firstn (p_len P * n) X') pk).
 
   Lemma xmss_layer l t idx X X' M M' : length X = sz -> length X' = sz ->
+    wfb M -> wfb M' -> length M = n -> length M' = n ->
     xmssPkFromSigS P HS l t idx X M pk = xmssPkFromSigS P HS l t idx X' M' pk ->
-    (M = M' /\ X = X') \/ wots_switch P HS pk \/ COLL.
+    (M = M' /\ X = X') \/ switch_at l t idx M M' X X' = true \/ COLL.
   Proof.
-    intros HX HX' E. unfold xmssPkFromSigS in E. unfold xmssSigSize in HX, HX'.
+    intros HX HX' WM WM' LM LM' E. unfold xmssPkFromSigS in E. unfold xmssSigSize in HX, HX'.
     assert (La : forall Z, length Z = (p_hp P + p_len P) * n -> forall j, 0 <= j < 0 + p_hp P ->
               length (chunk P j (skipn (p_len P * n) Z)) = n).
     { intros Z HZ j Hj. apply gchunk_length. rewrite skipn_length. nia. }
@@ -285,27 +441,116 @@ Section FORGERY.
     destruct E as [[Ew Ea]|C]; [|right; right; exact C].
     assert (Eauth : skipn (p_len P * n) X = skipn (p_len P * n) X').
     { apply (gchunks_eq n (p_hp P)); try (rewrite skipn_length; lia). intros i Hi. apply Ea. lia. }
-    destruct (bytes_eq_dec M M') as [e|ne].
-    - subst M'. apply wots_inj in Ew; try (rewrite firstn_length; lia).
+    destruct (beq (wotsChecksum P M) (wotsChecksum P M')) eqn:Eb.
+    - apply beq_eq in Eb. apply digits_inj in Eb; auto. subst M'.
+      apply wots_inj in Ew; try (rewrite firstn_length; lia).
       destruct Ew as [Ew|C]; [left|right; right; exact C].
       split; [reflexivity|]. rewrite <- (firstn_skipn (p_len P * n) X), <- (firstn_skipn (p_len P * n) X'). congruence.
-    - right. left. exists l, t, idx, M, M', (firstn (p_len P * n) X), (firstn (p_len P * n) X').
-      repeat split; auto; rewrite firstn_length; lia.
+    - right. left. unfold switch_at. rewrite Eb, Ew, beq_refl. reflexivity.
   Qed.
 
-  (* ---------- the hypertree: layers j .. j+cnt-1 ---------- *)
+  (* ---------- the hypertree: layers j .. j+cnt-1 (mirrors htVerifyS_loop) ---------- *)
+  Fixpoint switch_in_loop (cnt j : nat) (sH sH' : bytes) (it : N) (node node' : bytes) : bool :=
+    match cnt with
+    | O => false
+    | S c =>
+      let X := gchunk sz j sH in
+      let X' := gchunk sz j sH' in
+      switch_at (N.of_nat j) (htUp P it) (htLeaf P it) node node' X X' ||
+      switch_in_loop c (S j) sH sH' (htUp P it)
+        (xmssPkFromSigS P HS (N.of_nat j) (htUp P it) (htLeaf P it) X node pk)
+        (xmssPkFromSigS P HS (N.of_nat j) (htUp P it) (htLeaf P it) X' node' pk)
+    end.
+
   Lemma ht_loop_inj sigHT sigHT' D : length sigHT = D * sz -> length sigHT' = D * sz ->
     forall cnt j it node node', j + cnt <= D ->
+    wfb node -> wfb node' -> length node = n -> length node' = n ->
     htVerifyS_loop P HS cnt j sigHT pk it node = htVerifyS_loop P HS cnt j sigHT' pk it node' ->
-    (node = node' /\ forall i, j <= i < j + cnt -> gchunk sz i sigHT = gchunk sz i sigHT') \/ wots_switch P HS pk \/ COLL.
+    (node = node' /\ forall i, j <= i < j + cnt -> gchunk sz i sigHT = gchunk sz i sigHT')
+    \/ switch_in_loop cnt j sigHT sigHT' it node node' = true \/ COLL.
   Proof.
-    intros HL HL'. induction cnt as [|cnt IH]; intros j it node node' Hj E.
+    intros HL HL'. induction cnt as [|cnt IH]; intros j it node node' Hj W W' L L' E.
     - left. split; [exact E|intros; lia].
-    - cbn [htVerifyS_loop] in E. apply IH in E; [|lia].
-      destruct E as [[E Rest]|R]; [|right; exact R].
-      apply xmss_layer in E; try (apply gchunk_length; nia).
-      destruct E as [[E1 E2]|R]; [left|right; exact R].
-      split; [exact E1|]. intros i Hi. destruct (Nat.eq_dec i j) as [->|Hne]; [exact E2|apply Rest; lia].
+    - cbn [htVerifyS_loop] in E. cbn [switch_in_loop].
+      apply IH in E; try lia; try apply xmss_out_wfb; try apply xmss_out_len.
+      destruct E as [[E Rest]|[Sw|C]]; [|right; left|right; right; exact C].
+      + apply xmss_layer in E; auto; try (apply gchunk_length; nia).
+        destruct E as [[E1 E2]|[Sw|C]]; [left|right; left|right; right; exact C].
+        * split; [exact E1|]. intros i Hi. destruct (Nat.eq_dec i j) as [->|Hne]; [exact E2|apply Rest; lia].
+        * unfold gchunk. rewrite Sw. reflexivity.
+      + unfold gchunk in *. rewrite Sw. apply orb_true_r.
+  Qed.
+
+  (* the whole hypertree part, layer 0 first *)
+  Definition ht_switch (sH sH' : bytes) (it il : N) (M0 M0' : bytes) : bool :=
+    switch_at 0 it il M0 M0' (gchunk sz 0 sH) (gchunk sz 0 sH') ||
+    switch_in_loop (p_d P - 1) 1 sH sH' it
+      (xmssPkFromSigS P HS 0 it il (gchunk sz 0 sH) M0 pk) (xmssPkFromSigS P HS 0 it il (gchunk sz 0 sH') M0' pk).
+
+  (* ---------- a located switch is chain walking, in BOTH directions ----------
+     at some chain i the value in X' is the image of the value in X under m'_i - m_i >= 1 chain
+     steps, and at some chain i' the value in X is the image of the value in X' under
+     m_i' - m'_i' >= 1 steps (the checksum digits make the digit strings an antichain):
+     neither WOTS+ signature can be derived from the other by walking chains forward only *)
+  Lemma switch_at_walk l t kp M M' X X' : length X = sz -> length X' = sz ->
+    switch_at l t kp M M' X X' = true ->
+    COLL \/
+    ((exists i, i < p_len P /\
+        let m := nth i (wotsChecksum P M) 0%N in let m' := nth i (wotsChecksum P M') 0%N in
+        (m < m')%N /\ chunk P i X' = chainS HS l t kp (N.of_nat i) pk (chunk P i X) m (N.to_nat (m' - m))) /\
+     (exists i, i < p_len P /\
+        let m := nth i (wotsChecksum P M) 0%N in let m' := nth i (wotsChecksum P M') 0%N in
+        (m' < m)%N /\ chunk P i X = chainS HS l t kp (N.of_nat i) pk (chunk P i X') m' (N.to_nat (m - m')))).
+  Proof.
+    intros HX HX' Sw. unfold switch_at in Sw. apply andb_prop in Sw. destruct Sw as [Sd Se].
+    apply beq_eq in Se. unfold xmssSigSize in HX, HX'.
+    assert (Hne : wotsChecksum P M <> wotsChecksum P M').
+    { intros E. rewrite E, beq_refl in Sd. discriminate. }
+    destruct (checksum_antichain P DW M M' Hne) as [(i & Hi & Lt) (i' & Hi' & Gt)].
+    apply wots_switch_chains in Se; try (rewrite firstn_length; lia); try (intros; apply wotsChecksum_digit).
+    destruct Se as [C|Wk]; [left; exact C|right].
+    assert (Ec : forall c Z, c < p_len P -> length Z = (p_hp P + p_len P) * n ->
+              chunk P c (firstn (p_len P * n) Z) = chunk P c Z).
+    { intros c Z Hc HZ. unfold chunk. rewrite skipn_firstn_comm, firstn_firstn. f_equal. nia. }
+    split.
+    - exists i. split; [exact Hi|]. cbv zeta. split; [exact Lt|].
+      destruct (Wk i Hi) as [W1 _]. cbv zeta in W1. rewrite !Ec in W1 by assumption. apply W1. lia.
+    - exists i'. split; [exact Hi'|]. cbv zeta. split; [exact Gt|].
+      destruct (Wk i' Hi') as [_ W2]. cbv zeta in W2. rewrite !Ec in W2 by assumption. apply W2. lia.
+  Qed.
+
+  (* a switch found by the layered boolean is a switch_at on one pair of XMSS blocks *)
+  Lemma switch_in_loop_located sH sH' : forall cnt j it node node',
+    switch_in_loop cnt j sH sH' it node node' = true ->
+    exists i l t kp M M', j <= i < j + cnt /\ switch_at l t kp M M' (gchunk sz i sH) (gchunk sz i sH') = true.
+  Proof.
+    induction cnt as [|cnt IH]; intros j it node node' H; [discriminate|].
+    cbn [switch_in_loop] in H. apply orb_prop in H. destruct H as [H|H].
+    - exists j, (N.of_nat j), (htUp P it), (htLeaf P it), node, node'. split; [lia|exact H].
+    - apply IH in H. destruct H as (i & l & t & kp & M & M' & Hi & H).
+      exists i, l, t, kp, M, M'. split; [lia|exact H].
+  Qed.
+
+  Lemma ht_switch_walk sH sH' it il M0 M0' : length sH = p_d P * sz -> length sH' = p_d P * sz -> 1 <= p_d P ->
+    ht_switch sH sH' it il M0 M0' = true ->
+    COLL \/ exists j l t kp M M', j < p_d P /\
+      let X := gchunk sz j sH in let X' := gchunk sz j sH' in
+      (exists i, i < p_len P /\
+         let m := nth i (wotsChecksum P M) 0%N in let m' := nth i (wotsChecksum P M') 0%N in
+         (m < m')%N /\ chunk P i X' = chainS HS l t kp (N.of_nat i) pk (chunk P i X) m (N.to_nat (m' - m))) /\
+      (exists i, i < p_len P /\
+         let m := nth i (wotsChecksum P M) 0%N in let m' := nth i (wotsChecksum P M') 0%N in
+         (m' < m)%N /\ chunk P i X = chainS HS l t kp (N.of_nat i) pk (chunk P i X') m' (N.to_nat (m - m'))).
+  Proof.
+    intros L L' Hd H. unfold ht_switch in H. apply orb_prop in H.
+    assert (Loc : exists j l t kp M M', j < p_d P /\ switch_at l t kp M M' (gchunk sz j sH) (gchunk sz j sH') = true).
+    { destruct H as [H|H].
+      - exists 0, 0%N, it, il, M0, M0'. split; [lia|exact H].
+      - apply switch_in_loop_located in H. destruct H as (i & l & t & kp & M & M' & Hi & H).
+        exists i, l, t, kp, M, M'. split; [lia|exact H]. }
+    destruct Loc as (j & l & t & kp & M & M' & Hj & Sw).
+    apply switch_at_walk in Sw; try (apply gchunk_length; nia).
+    destruct Sw as [C|Wk]; [left; exact C|right]. exists j, l, t, kp, M, M'. split; [exact Hj|exact Wk].
   Qed.
 
   (* ---------- FORS public key from signature, same indices ---------- *)
@@ -357,12 +602,25 @@ Section FORGERY.
   Qed.
 End FORGERY.
 
+(* ---------- why the event has to be located ----------
+   "there exist two WOTS+ signatures on values with different digit strings that lead to the
+   same WOTS+ public key" holds for EVERY hash family and every pair of values: whoever holds
+   the chain start values signs both (this is wotsS_complete twice). *)
+Lemma unlocated_switch_is_free P HS pk : hashes_ok P HS -> forall l t kp M M' sk,
+  wotsPkFromSigS P HS l t kp (wotsChecksum P M) (wotsSignS P HS l t kp (wotsChecksum P M) sk pk) pk
+  = wotsPkFromSigS P HS l t kp (wotsChecksum P M') (wotsSignS P HS l t kp (wotsChecksum P M') sk pk) pk.
+Proof.
+  intros OK l t kp M M' sk. rewrite !(wotsS_complete P HS OK) by (intros; apply wotsChecksum_digit). reflexivity.
+Qed.
+
 (* ---------- the whole verification ---------- *)
 Section TOP.
   Variable P : params.
   Variable HS : hashes.
   Hypothesis OK : hashes_ok P HS.
   Hypothesis WF : params_wf P.
+  Hypothesis WB : hashes_wfb HS.
+  Hypothesis DW : digits_wf P.
   Notation n := (p_n P).
 
   (* what the digest contributes to the computation: FORS indices, tree, leaf *)
@@ -373,14 +631,26 @@ Section TOP.
   (* R || body *)
   Definition sig_body (sig : bytes) : bytes := skipn n sig.
 
+  (* the parts of a signature as verifyInternal takes them *)
+  Definition sig_fors (sig : bytes) : bytes := firstn ((1 + p_k P * (1 + p_a P)) * n - n) (skipn n sig).
+  Definition sig_ht (sig : bytes) : bytes := skipn ((1 + p_k P * (1 + p_a P)) * n) sig.
+
+  (* THE LOCATED EVENT for two signatures verified for (msg, sig)'s selectors: a boolean
+     computed from the two signatures (the FORS public keys each yields, then layer by layer) *)
+  Definition sig_switch (pkSeed pkRoot msg sig sig' : bytes) : bool :=
+    let '(ind, it, il) := selectors pkSeed pkRoot msg sig in
+    ht_switch P HS pkSeed (sig_ht sig) (sig_ht sig') it il
+      (forsPkFromSigS P HS 0 it il ind (sig_fors sig) pkSeed) (forsPkFromSigS P HS 0 it il ind (sig_fors sig') pkSeed).
+
   Theorem two_accepted_signatures : forall pkSeed pkRoot msg sig msg' sig',
     verifyInternal P HS pkSeed pkRoot msg sig = true ->
     verifyInternal P HS pkSeed pkRoot msg' sig' = true ->
     selectors pkSeed pkRoot msg sig = selectors pkSeed pkRoot msg' sig' ->
-    sig_body sig = sig_body sig' \/ wots_switch P HS pkSeed \/ th_collision HS pkSeed.
+    sig_body sig = sig_body sig' \/ sig_switch pkSeed pkRoot msg sig sig' = true \/ th_collision HS pkSeed.
   Proof.
     intros pkSeed pkRoot msg sig msg' sig' V V' Sel.
-    rewrite verifyInternal_fips in V, V'. unfold verifyInternalS in V, V'. unfold selectors in Sel.
+    rewrite verifyInternal_fips in V, V'. unfold verifyInternalS in V, V'.
+    unfold sig_switch. unfold selectors in *.
     destruct (Nat.eqb_spec (length sig) (sig_len P)) as [L|L]; [cbn [negb] in V|discriminate].
     destruct (Nat.eqb_spec (length sig') (sig_len P)) as [L'|L']; [cbn [negb] in V'|discriminate].
     destruct (split_digest P (hHMsg HS (firstn n sig) pkSeed pkRoot msg)) as [[md it] il].
@@ -388,29 +658,39 @@ Section TOP.
     inversion Sel as [[Ei Et El]]. subst it' il'. rewrite <- Ei in V'. clear Ei Sel.
     set (ind := base2b md (p_a P) (p_k P)) in *.
     destruct WF as [Hh Hd].
-    set (fi := 1 + p_k P * (1 + p_a P)) in *.
-    set (sF := firstn (fi * n - n) (skipn n sig)) in *. set (sF' := firstn (fi * n - n) (skipn n sig')) in *.
-    set (sH := skipn (fi * n) sig) in *. set (sH' := skipn (fi * n) sig') in *.
+    fold (sig_fors sig) in V. fold (sig_fors sig') in V'. fold (sig_ht sig) in V. fold (sig_ht sig') in V'.
+    set (sF := sig_fors sig) in *. set (sF' := sig_fors sig') in *.
+    set (sH := sig_ht sig) in *. set (sH' := sig_ht sig') in *.
     assert (LsF : length sF = p_k P * ((p_a P + 1) * n) /\ length sF' = p_k P * ((p_a P + 1) * n)).
-    { unfold sF, sF'. rewrite !firstn_length, !skipn_length, L, L'. unfold sig_len, fi. nia. }
+    { unfold sF, sF', sig_fors. rewrite !firstn_length, !skipn_length, L, L'. unfold sig_len. nia. }
     assert (LsH : length sH = p_d P * xmssSigSize P /\ length sH' = p_d P * xmssSigSize P).
-    { unfold sH, sH'. rewrite !skipn_length, L, L'. unfold sig_len, fi, xmssSigSize. rewrite Hh. nia. }
+    { unfold sH, sH', sig_ht. rewrite !skipn_length, L, L'. unfold sig_len, xmssSigSize. rewrite Hh. nia. }
     destruct LsF as [LF LF']. destruct LsH as [LH LH'].
+    set (M0 := forsPkFromSigS P HS 0 it il ind sF pkSeed) in *.
+    set (M0' := forsPkFromSigS P HS 0 it il ind sF' pkSeed) in *.
+    assert (WM : wfb M0 /\ wfb M0' /\ length M0 = n /\ length M0' = n).
+    { unfold M0, M0', forsPkFromSigS. repeat split; try apply (hTl_wfb _ WB); apply (hTl_len _ _ OK). }
+    destruct WM as (WM & WM' & LM & LM').
     unfold htVerifyS in V, V'. apply beq_eq in V, V'. rewrite <- V' in V. clear V'.
-    apply (ht_loop_inj P HS OK pkSeed sH sH' (p_d P) LH LH') in V; [|lia].
-    destruct V as [[V Rest]|R]; [|right; exact R].
-    fold (gchunk (xmssSigSize P) 0 sH) in V. fold (gchunk (xmssSigSize P) 0 sH') in V.
-    apply (xmss_layer P HS OK) in V; try (rewrite firstn_length; nia).
-    destruct V as [[V0 B0]|R]; [|right; exact R].
+    unfold ht_switch.
+    change (firstn (xmssSigSize P) sH) with (gchunk (xmssSigSize P) 0 sH) in V.
+    change (firstn (xmssSigSize P) sH') with (gchunk (xmssSigSize P) 0 sH') in V.
+    apply (ht_loop_inj P HS OK pkSeed WB DW sH sH' (p_d P) LH LH') in V;
+      try lia; try apply xmss_out_wfb; try apply xmss_out_len; auto.
+    destruct V as [[V Rest]|[Sw|C]]; [|right; left; rewrite Sw; apply orb_true_r|right; right; exact C].
+    apply (xmss_layer P HS OK pkSeed DW) in V; auto; try (apply gchunk_length; nia).
+    destruct V as [[V0 B0]|[Sw|C]]; [|right; left; rewrite Sw; reflexivity|right; right; exact C].
     apply (fors_inj P HS OK) in V0; auto.
     destruct V0 as [V0|C]; [left|right; right; exact C].
     assert (EH : sH = sH').
     { apply (gchunks_eq (xmssSigSize P) (p_d P)); auto. intros i Hi.
       destruct (Nat.eq_dec i 0) as [->|Hne]; [exact B0|apply Rest; lia]. }
     unfold sig_body.
+    set (fi := 1 + p_k P * (1 + p_a P)) in *.
     rewrite <- (firstn_skipn (fi * n - n) (skipn n sig)), <- (firstn_skipn (fi * n - n) (skipn n sig')).
-    fold sF sF'. rewrite !skipn_add. replace (fi * n - n + n) with (fi * n) by (unfold fi; nia).
-    fold sH sH'. congruence.
+    rewrite !skipn_add.
+    replace (fi * n - n + n) with (fi * n) by (unfold fi; nia).
+    change (sF ++ sH = sF' ++ sH'). congruence.
   Qed.
 
   (* the signature-modification clause: same message, same R, same key *)
@@ -418,12 +698,31 @@ Section TOP.
     verifyInternal P HS pkSeed pkRoot msg sig = true ->
     verifyInternal P HS pkSeed pkRoot msg sig' = true ->
     firstn n sig = firstn n sig' -> sig <> sig' ->
-    wots_switch P HS pkSeed \/ th_collision HS pkSeed.
+    sig_switch pkSeed pkRoot msg sig sig' = true \/ th_collision HS pkSeed.
   Proof.
     intros pkSeed pkRoot msg sig sig' V V' ER Hne.
     destruct (two_accepted_signatures pkSeed pkRoot msg sig msg sig' V V') as [E|R]; [|exfalso|exact R].
     - unfold selectors. rewrite ER. reflexivity.
     - apply Hne. rewrite <- (firstn_skipn n sig), <- (firstn_skipn n sig'). unfold sig_body in E. congruence.
+  Qed.
+
+  (* what a located switch between two signatures of the right length means *)
+  Theorem sig_switch_walk : forall pkSeed pkRoot msg sig sig',
+    length sig = sig_len P -> length sig' = sig_len P ->
+    sig_switch pkSeed pkRoot msg sig sig' = true ->
+    th_collision HS pkSeed \/ exists j l t kp M M', j < p_d P /\
+      let X := gchunk (xmssSigSize P) j (sig_ht sig) in let X' := gchunk (xmssSigSize P) j (sig_ht sig') in
+      (exists i, i < p_len P /\
+         let m := nth i (wotsChecksum P M) 0%N in let m' := nth i (wotsChecksum P M') 0%N in
+         (m < m')%N /\ chunk P i X' = chainS HS l t kp (N.of_nat i) pkSeed (chunk P i X) m (N.to_nat (m' - m))) /\
+      (exists i, i < p_len P /\
+         let m := nth i (wotsChecksum P M) 0%N in let m' := nth i (wotsChecksum P M') 0%N in
+         (m' < m)%N /\ chunk P i X = chainS HS l t kp (N.of_nat i) pkSeed (chunk P i X') m' (N.to_nat (m - m'))).
+  Proof.
+    intros pkSeed pkRoot msg sig sig' L L' Sw. unfold sig_switch in Sw.
+    destruct (selectors pkSeed pkRoot msg sig) as [[ind it] il]. destruct WF as [Hh Hd].
+    apply (ht_switch_walk P HS OK pkSeed DW) in Sw; auto;
+      unfold sig_ht; rewrite skipn_length; [rewrite L|rewrite L']; unfold sig_len, xmssSigSize; rewrite Hh; nia.
   Qed.
 
   (* the key-modification clause (same PK.seed): one signature cannot verify under two roots
